@@ -611,6 +611,19 @@ theorem hook_event_wakes_protected (evt : Evt) (deleting : Bool) (deps : List Ho
   simp only [Bool.not_true, Bool.false_eq_true, if_false, h1, List.mem_map, List.mem_filter]
   exact ⟨d, ⟨hd, by simp [hl, hs]⟩, rfl⟩
 
+-- non-vacuity of the watch theorems
+example : depPredicate { evt := .update, newCtrl := true, newStype := .recreate, newPaused := true, oldGen := 2, newGen := 2,
+                         newDeleting := false, annoSame := false } = true := by decide
+example : depPredicate { evt := .update, newCtrl := true, newStype := .recreate, newPaused := true, oldGen := 2, newGen := 2,
+                         newDeleting := false, annoSame := true } = false := by decide
+example : depPredicate { evt := .update, newCtrl := true, newStype := .rollingUpdate, newPaused := true, oldGen := 2, newGen := 3,
+                         newDeleting := false, annoSame := false } = false := by decide
+example : ownerRequests [⟨true, true, "x", false⟩, ⟨true, true, "d", true⟩] = ["d"] ∧
+    ownerRequests [⟨false, true, "sts", true⟩, ⟨true, true, "d", false⟩] = [] := by decide
+example : hookRequests .update true true false [⟨"a", true, .recreate⟩, ⟨"b", true, .rollingUpdate⟩, ⟨"c", false, .recreate⟩] = ["a"] ∧
+    hookRequests .update true false false [⟨"a", true, .recreate⟩] = [] ∧
+    hookRequests .delete true false false [⟨"a", true, .recreate⟩] = ["a"] := by decide
+
 /-- … and a Deployment under rollout control has that strategy type -/
 theorem under_control_is_recreate (w : World) (h : newController w = true) : w.stype = .recreate :=
   ((newController_iff w).mp h).2.1
